@@ -33,10 +33,13 @@ def instr13(draw):
     if k in (7, 8):
         return {"op": "mutate13", "a": a, "what": draw(st.sampled_from(MUTATORS)), "site": draw(st.integers(0, 6)),
                 "val": draw(st.sampled_from(chain.SCALARS)), "on": draw(st.sampled_from(["S", "S", "O", "M"])), "dir": draw(st.integers(0, 1))}
+    if k == 9 and draw(st.booleans()):
+        return {"op": "observe13", "a": a, "b": b, "o": o, "what": draw(st.sampled_from(["distance", "distance", "dot", "angle", "expectation"])),
+                "on": "S", "prefactor_first": draw(st.sampled_from(chain.SCALARS))}
     if k == 9:
         return {"op": "derive_gauge", "a": a, "g": draw(chain.gauge_instr("S")), "on": draw(st.sampled_from(["S", "S", "O", "M"]))}
     if k == 10:
-        return {"op": draw(st.sampled_from(["trunc", "vcompress", "optimize"])), "a": a, "o": o, "M": draw(st.sampled_from([1, 2, 4])), "dir": draw(st.integers(0, 1)),
+        return {"op": draw(st.sampled_from(["trunc", "vcompress", "vcompress", "optimize"])), "a": a, "o": o, "small_guess": draw(st.integers(0, 1)), "M": draw(st.sampled_from([1, 2, 4])), "dir": draw(st.integers(0, 1)),
                 "crit": "fixed", "thr": 0.1, "method": draw(st.sampled_from(["1site", "2site"])), "nroots": 1, "pct": 0.2,
                 "algo": "direct", "rng": draw(st.integers(0, 1000))}
     return {"op": "mpdm_from", "a": a}
@@ -81,8 +84,12 @@ class Interp13(Interp06):
                 snap = [(reg, chain.dense_of(reg.obj), getattr(reg.obj, "coeff", 1), tuple(int(v) for v in np.atleast_1d(reg.obj.qntot)))
                         for reg in self.all_regs()]
                 self.inplace_target = None
+                self._resnap = None
                 nreg_before = len(snap)
                 getattr(self, "i_" + ins["op"])(ins)
+                if self._resnap is not None:
+                    # the harness itself changed a prefactor inside the instruction: compare against the state after that change
+                    snap = [(reg, (self._resnap[1] if reg is self._resnap[0] else d0), c0, q0) for reg, d0, c0, q0 in snap]
                 live = {id(r) for r in self.all_regs()}
                 for reg, d0, c0, q0 in snap:
                     if id(reg) not in live or reg is self.inplace_target:
@@ -208,6 +215,14 @@ class Interp13(Interp06):
         what = ins["what"]
         o = self.pick([r for r in self.O if not any(r.q)], ins["o"])
         other = self.pick(regs, ins["b"], same_q_as=reg)
+        if ins.get("prefactor_first") and other is not None and other is not reg and other.kind in ("S", "M"):
+            # the partner gets a prefactor != 1 first (as normalize('mps_norm_to_coeff') / expand_bond_dimension leave behind)
+            v = complex(*ins["prefactor_first"])
+            v = v if v.imag != 0 else v.real
+            other.obj.coeff = other.obj.coeff * v
+            other.model = other.model * v
+            snap_fix = chain.dense_of(other.obj)
+            self._resnap = (other, snap_fix)
         kinds = [s["k"] for s in self.spec["sites"]]
 
         def call():
@@ -335,6 +350,7 @@ class C13(Prop):
 
     known_matchers = {
         "F24": lambda spec, sig, msg: sig == "shared_arrays.conj_of_real_object",
+        "F27": lambda spec, sig, msg: sig == "observe.distance.common_prefactor_ignored",
     }
 
     def budget(self, tier):
